@@ -3,20 +3,31 @@
    single-variable queries as a resumable process: which elements are delivered, in which order, and what the domain state
    is AT THE MOMENT each one is delivered.  Histories of full / partial / aborted evaluations are folds over that state.
    Objects are identities (nat).  No proofs here. *)
-From EQL Require Import Base Values Syntax Spec.
+From EQL Require Import Base Values Syntax Spec Generated.
 
 Record lazy := { mat : list nat; rem : list nat }.
 
 Definition memb (v : nat) (l : list nat) : bool := existsb (Nat.eqb v) l.
 
-(* HashedIterable.__iter__, second loop: an element pulled from the iterator that is already memoised is skipped, a new one
-   is memoised BEFORE it is handed out.  [deliver_rem m r] = the elements handed out while consuming r, each with the state
-   at that moment. *)
+(* HashedIterable.__iter__, second loop, as the translator found it (Generated.iter_skips_memoised / iter_memoises_before_yield,
+   re-extracted from hashed_data.py on every run): an element pulled from the iterator that is already memoised is skipped (or
+   handed out again), a new one is memoised before (or only after) it is handed out.  [deliver_rem m r] = the elements handed
+   out while consuming r, each with the state AT THAT MOMENT - what remains if the consumer stops there. *)
 Fixpoint deliver_rem (m r : list nat) : list (nat * lazy) :=
   match r with
   | [] => []
-  | v :: r' => if memb v m then deliver_rem m r'
-               else (v, {| mat := m ++ [v]; rem := r' |}) :: deliver_rem (m ++ [v]) r'
+  | v :: r' =>
+      if iter_skips_memoised && memb v m then deliver_rem m r'
+      else let m1 := if memb v m then m else m ++ [v] in
+           (v, {| mat := if iter_memoises_before_yield then m1 else m; rem := r' |}) :: deliver_rem m1 r'
+  end.
+
+(* the behaviour the theorems are about: skip what is memoised, memoise before handing out *)
+Fixpoint deliver_rem_std (m r : list nat) : list (nat * lazy) :=
+  match r with
+  | [] => []
+  | v :: r' => if memb v m then deliver_rem_std m r'
+               else (v, {| mat := m ++ [v]; rem := r' |}) :: deliver_rem_std (m ++ [v]) r'
   end.
 
 (* first loop: the memoised elements, nothing is pulled *)
@@ -103,16 +114,43 @@ Definition show_lobs (d0 : list nat) (r : list nat * lazy) : string :=
   "[" ++ String.concat "," (map show_nat (fst r)) ++ "]p" ++ show_nat (length d0 - length (rem (snd r)))
       ++ "m" ++ show_nat (length (mat (snd r))).
 
+(* ---- the specification of demand (no lazy state in it): how much of the supplied iterator a step may have read.
+   [need f [] d k] = the length of the shortest prefix of d that holds k distinct objects satisfying f (all of d when there are
+   fewer); a history has read the longest prefix any of its steps needed ---- *)
+Fixpoint need (f : nat -> bool) (seen d : list nat) (k : nat) {struct d} : nat :=
+  match d with
+  | [] => 0
+  | v :: d' =>
+      match k with
+      | 0 => 0
+      | S k' => S (if memb v seen then need f seen d' k
+                   else if f v then need f (seen ++ [v]) d' k' else need f (seen ++ [v]) d' k)
+      end
+  end.
+
+Definition required (pool : list lquery) (d : list nat) (o : lop) : nat :=
+  match o with
+  | LFull _ => length d
+  | LTake i k => need (lq_q (nthq pool i)) [] d k
+  | LRaise i j => match j with 0 => length d | _ => need (lq_guard (nthq pool i)) [] d j end
+  end.
+
+Fixpoint spec_pulls (pool : list lquery) (d : list nat) (sofar : nat) (ops : list lop) : list nat :=
+  match ops with
+  | [] => []
+  | o :: ops' => let n := Nat.max sofar (required pool d o) in n :: spec_pulls pool d n ops'
+  end.
+
 (* model: every step of the history; specification: for every step that is a FULL evaluation, the answer of the same query
-   evaluated on untouched data (the domain without repetitions, filtered) *)
-Definition spec_lobs (h : heap) (pool : list lquery) (d0 : list nat) (o : lop) : string :=
+   evaluated on untouched data (the domain without repetitions, filtered); for every step, how much of the iterator has been read *)
+Definition spec_lobs (h : heap) (pool : list lquery) (d0 : list nat) (o : lop) (pulled : nat) : string :=
   match o with
   | LFull i => "[" ++ String.concat "," (map show_nat (filter (lq_q (nthq pool i)) (content (fresh d0)))) ++ "]"
   | _ => "-"
-  end.
+  end ++ "p" ++ show_nat pulled.
 
 Definition run_lcase (n : nat) (h : heap) (d0 : list nat) (qs : list lcase_query) (ops : list lop) : string :=
   let pool := map (mk_query h) qs in
   "CASE " ++ show_nat n ++ " M " ++ String.concat " " (map (show_lobs d0) (lrun pool (fresh d0) ops))
-          ++ " S " ++ String.concat " " (map (spec_lobs h pool d0) ops).
+          ++ " S " ++ String.concat " " (map (fun op => spec_lobs h pool d0 (fst op) (snd op)) (combine ops (spec_pulls pool d0 0 ops))).
 Close Scope string_scope.
